@@ -27,6 +27,10 @@ pub fn random_cfg(rng: &mut Rng, gw: &GWorld) -> BuildCfg {
 }
 
 pub fn build_gworld(gw: &GWorld, cfg: &BuildCfg) -> Result<ModuleGraph, PanicInfo> {
+  build_gworld_with_log(gw, cfg).map(|(g, _)| g)
+}
+
+pub fn build_gworld_with_log(gw: &GWorld, cfg: &BuildCfg) -> Result<(ModuleGraph, Vec<LoadEvent>), PanicInfo> {
   let world = gw.to_world();
   let loader = ScriptedLoader::new(&world);
   let mut graph = ModuleGraph::new(cfg.kind);
@@ -42,7 +46,8 @@ pub fn build_gworld(gw: &GWorld, cfg: &BuildCfg) -> Result<ModuleGraph, PanicInf
       None,
     );
   })?;
-  Ok(graph)
+  let log = loader.take_log();
+  Ok((graph, log))
 }
 
 /// Workspace-member fast check so that walks see fast-check modules.
